@@ -2,9 +2,18 @@
 # Runs every registered check (default: quick tier) and prints one line per property.
 T=${1:-quick}
 cd "$(dirname "$(readlink -f "$0")")"
-for p in $(python3 -c "import json;print(' '.join(c['property_id'] for c in json.load(open('MANIFEST.json'))['checks']))"); do
+# extra checks that are NOT among the listed properties (not in MANIFEST.json): run after the registered ones
+EXTRAS="X01"
+run() {
+  p=$1
   s=$(date +%s)
   out=$(./check $p --tier $T 2>&1); rc=$?
   e=$(date +%s)
   echo "$p rc=$rc $((e-s))s $(echo "$out" | grep -E '^VIOLATION|^KNOWN-FINDING|^BROKEN' | cut -c1-160 | head -3 | tr '\n' ' ')"
+}
+for p in $(python3 -c "import json;print(' '.join(c['property_id'] for c in json.load(open('MANIFEST.json'))['checks']))"); do
+  run $p
+done
+for p in $EXTRAS; do
+  run $p
 done
